@@ -12,7 +12,7 @@ RULE = (
     "failed; state = (member, what it archived)"
 )
 BOUNDS = {
-    "quick": "14 singles + 182 ordered pairs x 7 files (quotes, delimiters, embedded newlines, non-ASCII, blank records, empty file) x 6 run methods",
+    "quick": "14 singles + 182 ordered pairs x 7 files (quotes, delimiters, embedded newlines, non-ASCII, blank records, empty file) x 6 run methods; plus every single member run after a run of another group on the same instance",
     "thorough": "singles, pairs and 2,184 ordered triples x 10 files x 6 run methods",
 }
 CHUNK = 40
@@ -64,6 +64,19 @@ def cases(tier, seed):
             for fi in range(nf):
                 for m in groups.METHODS:
                     yield {"group": list(grp), "file": fi, "method": m}
+    yield from _reuse_cases()
+
+
+def _reuse_cases():
+    """a run on an instance that has already made a run of ANOTHER group (same member identities, so a directory or file left over
+    from the earlier run would be found under the same names)."""
+    from mcx import groups
+
+    for pre in (2, 4, 5, 9):
+        for mi in range(len(MEMBERS)):
+            for fi in (0, 1):
+                for m in groups.METHODS:
+                    yield {"group": [mi], "file": fi, "method": m, "pre": pre}
 
 
 def sample(case):
@@ -78,8 +91,12 @@ def run_case(case):
     cp = groups.fresh(policy="collect")
     src = sandbox.write_csv(FILES[fi])
     groups.register(cp, src, [MEMBERS[i] for i in grp])
+    if case.get("pre") is not None:
+        # an earlier run of another group (holding the same member plus the pre-member) on the same instance and file
+        cp.paths_manager.add_named_paths(name="g0", paths=[MEMBERS[case["pre"]]] + [MEMBERS[i] for i in grp])
+        groups.run_method(cp, "collect_paths", name="g0")
     lines, exc = groups.run_method(cp, method)
-    cstr = f"group={[IDS[i] or 'noid' for i in grp]} file={fi} method={method}"
+    cstr = f"group={[IDS[i] or 'noid' for i in grp]} file={fi} method={method}" + (f" after a run of another group on the same instance (first member {IDS[case['pre']]})" if case.get("pre") is not None else "")
     viol = []
     states = []
 
